@@ -25,6 +25,10 @@ def fr(x):
     return Fraction(float(x))
 
 
+def plain(v, on):
+    return int(v) if on and float(v).is_integer() else v
+
+
 @st.composite
 def rolling_cases(draw):
     lattice = draw(st.booleans())
@@ -77,6 +81,7 @@ def rolling_cases(draw):
     case["extra"] = draw(st.booleans())
     case["orders"] = draw(build.orders_strategy())
     case["container"] = draw(st.sampled_from(build.CONTAINERS))
+    case["plain_ints"] = draw(st.booleans())  # whole-number region bounds, sizes and spacings handed over as Python ints instead of floats
     return case
 
 
@@ -86,17 +91,18 @@ def check_rolling(case, ctx):
     e = lay(case["e"], shp)
     n = lay(case["n"], shp)
     coords = (e, n) + ((np.arange(e.size, dtype="float64").reshape(shp),) if case["extra"] else ())
-    size = case["size"]
+    ints = case.get("plain_ints", False)
+    size = plain(case["size"], ints)
     kw = {}
     if case["given_region"]:
-        kw["region"] = tuple(case["region"])
+        kw["region"] = tuple(plain(v, ints) for v in case["region"])
         region = list(case["region"])
     else:
         region = [float(e.min()), float(e.max()), float(n.min()), float(n.max())]
     if "shape" in case:
         kw["shape"] = tuple(case["shape"])
     else:
-        kw["spacing"] = tuple(case["spacing"])
+        kw["spacing"] = tuple(plain(v, ints) for v in case["spacing"])
         kw["adjust"] = case["adjust"]
     if min(region[1] - region[0], region[3] - region[2]) < size:
         try:
